@@ -13,6 +13,7 @@ from . import _partner as P
 
 ID = "C08"
 OPTIMISED_STRIDE = {"quick": 10, "thorough": 20}      # every k-th shard once more in an interpreter started with -O
+CHAIN_STRIDE = {'quick': 10, 'thorough': 30}      # every k-th shard is re-run in chains inside one process (non-initial process states)
 LEVEL = "model_checking"
 ENGINE = "E2"
 TECHNIQUE = "exhaustive enumeration of gear states and of all adversarial answer streams up to a length bound, driving the real generator sequences against a spec model of the gear"
